@@ -1,10 +1,13 @@
 #!/bin/sh
 # usage: lib/seedtest.sh <patch.diff> <Cxx> [tier]   — apply a seeded change to /repo, run the check, undo.
+# The evidence file of the clean tree is preserved.
 set -u
 P="$1"; ID="$2"; TIER="${3:-quick}"
 cd /verif
+cp evidence/$ID.json /tmp/evidence-$ID.json 2>/dev/null
 git -C /repo apply "$P" || { echo "APPLY-FAILED $P"; exit 3; }
 ./check "$ID" "$TIER" > /tmp/seedtest.out 2>&1; rc=$?
 git -C /repo checkout -- .
+cp /tmp/evidence-$ID.json evidence/$ID.json 2>/dev/null
 grep -E "^(VIOLATION|KNOWN-FINDING|check )" /tmp/seedtest.out | cut -c1-300
 echo "exit=$rc"
